@@ -567,7 +567,7 @@ theorem callL_any (cfg : Cfg) : ∀ (xs : List Op), normalL cfg xs = true → re
     obtain ⟨hlx, hlxs, hsplit⟩ := take_drop_split ts (rep x).length (repL xs).length hts
     obtain ⟨x', hcx, hsx, hrx⟩ := call_any cfg x hn.1 hr.1 pre (ts.take (rep x).length) (ts.drop (rep x).length ++ rest) hlx
     obtain ⟨xs', hcxs, hsxs, hrxs⟩ := callL_any cfg xs hn.2 hr.2 (pre ++ ts.take (rep x).length) (ts.drop (rep x).length) rest hlxs
-    simp only [List.length_append, hlx, ← width_eq x hr.1] at hcxs
+    rw [List.length_append, hlx] at hcxs
     have e1 : pre ++ ts.take (rep x).length ++ (ts.drop (rep x).length ++ rest) = pre ++ ts ++ rest := by
       rw [List.append_assoc pre, ← List.append_assoc (ts.take _), hsplit, ← List.append_assoc]
     have e2 : pre ++ ts.take (rep x).length ++ ts.drop (rep x).length ++ rest = pre ++ ts ++ rest := by
@@ -575,9 +575,125 @@ theorem callL_any (cfg : Cfg) : ∀ (xs : List Op), normalL cfg xs = true → re
     rw [e1] at hcx
     rw [e2] at hcxs
     refine ⟨x' :: xs', ?_, ?_, ?_⟩
-    · simp only [treeL, callL, hcx, hcxs]
+    · simp only [treeL, callL, width_eq x hr.1, hcx, hcxs]
     · simp only [skelL, hsx, hsxs]
     · simp only [repL, hrx, hrxs, hsplit]
+end
+
+end LinOp.C14
+
+/-! ### copies and conversions preserve the skeleton -/
+namespace LinOp.C14
+
+/-- classes whose conversion rewrites a non-tensor keyword (dtype / device fields) -/
+def rewritesNkw (cls : String) : Bool :=
+  cls = "IdentityLinearOperator" || cls = "ZeroLinearOperator" || cls = "CatLinearOperator"
+
+mutual
+def plain : Op → Bool
+  | .leaf _ => true
+  | .val _ => true
+  | .node cls a _ d _ _ => !rewritesNkw cls && plainL a && plainL d
+def plainL : List Op → Bool
+  | [] => true
+  | x :: xs => plain x && plainL xs
+end
+
+theorem convNkw_plain (m : Mode) (cls : String) (nkw : KV) (h : rewritesNkw cls = false) : convNkw m cls nkw = nkw := by
+  simp only [rewritesNkw, Bool.or_eq_false_iff, decide_eq_false_iff_not] at h
+  simp [convNkw, h.1.1, h.1.2, h.2]
+
+def convHead (cfg : Cfg) (m : Mode) (guard : Bool) (x : Op) : Option Op :=
+      match x with
+      | .leaf l => some (.leaf (convLeaf m guard l))
+      | .val v => some (.val v)
+      | .node c a dn d nkw hid =>
+        match m with
+        | .type t =>
+          if isFloatDT (dtypeOf cfg true (.node c a dn d nkw hid)) then conv cfg (.cloneTo t) (.node c a dn d nkw hid)
+          else conv cfg .clone (.node c a dn d nkw hid)
+        | .to _ =>
+          if guard && !isFloatDT (dtypeOf cfg false (.node c a dn d nkw hid)) then some (.node c a dn d nkw hid)
+          else conv cfg m (.node c a dn d nkw hid)
+        | .cloneTo _ =>
+          if guard && !isFloatDT (dtypeOf cfg true (.node c a dn d nkw hid)) then conv cfg .clone (.node c a dn d nkw hid)
+          else conv cfg m (.node c a dn d nkw hid)
+        | _ => conv cfg m (.node c a dn d nkw hid)
+theorem convL_cons (cfg : Cfg) (m : Mode) (guard : Bool) (x : Op) (xs : List Op) :
+    convL cfg m guard (x :: xs) =
+      (match convHead cfg m guard x, convL cfg m guard xs with
+       | some y, some ys => some (y :: ys)
+       | _, _ => none) := by
+  cases x <;> rfl
+theorem convL_nil (cfg : Cfg) (m : Mode) (guard : Bool) : convL cfg m guard [] = some [] := rfl
+def isTypeMode : Mode → Bool
+  | .type _ => true
+  | _ => false
+
+theorem conv_node (cfg : Cfg) (m : Mode) (cls : String) (a : List Op) (dn : List String) (d : List Op) (nkw hid : KV) :
+    conv cfg m (.node cls a dn d nkw hid) =
+    if (cls = "TransposePermutationLinearOperator" && isTypeMode m) = true then
+      some (.node cls a dn d nkw hid)
+    else
+    match convL cfg (nodeMode m cls) (floatOnlyTo cls) a, convL cfg (nodeMode m cls) (floatOnlyTo cls) d with
+    | some a', some d' => construct cfg cls a' (kwOf dn d' (convNkw m cls nkw))
+    | _, _ => none := by cases m <;> rfl
+
+theorem convHead_skel (cfg : Cfg) (m : Mode) (guard : Bool) (x : Op)
+    (ih : ∀ m', ∃ y, conv cfg m' x = some y ∧ skel y = skel x) :
+    ∃ y, convHead cfg m guard x = some y ∧ skel y = skel x := by
+  cases x with
+  | leaf l => exact ⟨_, rfl, rfl⟩
+  | val v => exact ⟨_, rfl, rfl⟩
+  | node c a dn d nkw hid =>
+    cases m with
+    | clone => exact ih .clone
+    | detach => exact ih .detach
+    | type t =>
+      simp only [convHead]
+      split
+      · exact ih (.cloneTo t)
+      · exact ih .clone
+    | to t =>
+      simp only [convHead]
+      split
+      · exact ⟨_, rfl, rfl⟩
+      · exact ih (.to t)
+    | cloneTo t =>
+      simp only [convHead]
+      split
+      · exact ih .clone
+      · exact ih (.cloneTo t)
+
+mutual
+theorem conv_skel (cfg : Cfg) : ∀ (o : Op), normal cfg o = true → plain o = true → ∀ (m : Mode),
+    ∃ o', conv cfg m o = some o' ∧ skel o' = skel o
+  | .leaf l, _, _, m => ⟨_, rfl, rfl⟩
+  | .val v, _, _, m => ⟨_, rfl, rfl⟩
+  | .node cls a dn d nkw hid, hn, hp, m => by
+    simp only [normal, Bool.and_eq_true] at hn
+    simp only [plain, Bool.and_eq_true, Bool.not_eq_true'] at hp
+    obtain ⟨⟨hok, hna⟩, hnd⟩ := hn
+    obtain ⟨⟨hrw, hpa⟩, hpd⟩ := hp
+    rw [conv_node]
+    by_cases hc : (decide (cls = "TransposePermutationLinearOperator") && isTypeMode m) = true
+    · rw [if_pos hc]; exact ⟨_, rfl, rfl⟩
+    · rw [if_neg hc]
+      obtain ⟨a', hca, hsa⟩ := convL_skel cfg a hna hpa (nodeMode m cls) (floatOnlyTo cls)
+      obtain ⟨d', hcd, hsd⟩ := convL_skel cfg d hnd hpd (nodeMode m cls) (floatOnlyTo cls)
+      rw [hca, hcd, convNkw_plain m cls nkw hrw]
+      have hok' := nodeOK_congr cfg cls a a' dn d d' nkw hid hsa.symm hsd.symm hok
+      exact ⟨.node cls a' dn d' nkw hid, construct_fix cfg cls a' dn d' nkw hid hok', by simp only [skel, hsa, hsd]⟩
+theorem convL_skel (cfg : Cfg) : ∀ (xs : List Op), normalL cfg xs = true → plainL xs = true →
+    ∀ (m : Mode) (guard : Bool), ∃ xs', convL cfg m guard xs = some xs' ∧ skelL xs' = skelL xs
+  | [], _, _, _, _ => ⟨[], rfl, rfl⟩
+  | x :: xs, hn, hp, m, guard => by
+    simp only [normalL, Bool.and_eq_true] at hn
+    simp only [plainL, Bool.and_eq_true] at hp
+    obtain ⟨xs', hxs, hsxs⟩ := convL_skel cfg xs hn.2 hp.2 m guard
+    obtain ⟨y, hy, hsy⟩ := convHead_skel cfg m guard x (fun m' => conv_skel cfg x hn.1 hp.1 m')
+    rw [convL_cons, hy, hxs]
+    exact ⟨y :: xs', rfl, by simp only [skelL, hsy, hsxs]⟩
 end
 
 end LinOp.C14
